@@ -132,7 +132,7 @@ def normalise(ep, ncpu):
                 d['items'] = its
             out.append(d)
         elif ev == 'wf.enter':
-            out.append(mk(ev='enter', p=e['p'], job=e['job'], id=e.get('id', ''), idgen=str(e.get('id', '')).startswith('gen-'),
+            out.append(mk(ev='enter', p=e['p'], job=e['job'], id=e.get('id', ''), idgen=str(e.get('id', '')).startswith(('gen-', 'g:gen-')),
                           st=e.get('status', ''), cons=e.get('cons', 0), line=e['seq']))
         elif ev == 'wf.exit':
             out.append(mk(ev='exit', p=e['p'], job=e['job'], out=e.get('out', ''), st=e.get('status', ''), line=e['seq']))
